@@ -12,8 +12,9 @@
    type-checks when the objects happen to be integers).  [callsites_ok]: every data argument of every callback call
    is a dereference of a data iterator.  (The converse direction -- every dereference goes into a callback -- is
    Chain_Spec.derefs_ok.) *)
-From Coq Require Import List String Bool ZArith.
+From Coq Require Import List String Bool ZArith QArith.
 From TK Require Import Chain_Model Chain_Spec Chain_Adapt_Model.
+Local Close Scope Q_scope.
 Import ListNotations.
 Local Open Scope string_scope.
 
@@ -56,6 +57,11 @@ Definition spec_value (fam : adapter_family) (F : string) (m : string) (ps : lis
   | FEigFeatures, [] => if String.eqb m "dimension" then Some (XRows F) else None
   | _, _ => None
   end.
+
+(* the meaning of a symbolic scalar answer in a concrete world: [M f r c] is the entry (r, c) of the matrix the object
+   holds in field f (any rational matrix; binary64 values are rationals) *)
+Definition denote_entry (M : string -> Z -> Z -> Q) (v : aval) : option Q :=
+  match v with XEntry f r c => Some (M f r c) | _ => None end.
 
 (* ------------------------------------------------------------------ the decision procedure *)
 (* the expression that IS the specification, in the table language *)
